@@ -459,7 +459,17 @@ def check_case(case) -> Verdict:
             extra = Svp * dvp + gam(m0.vp) * box(m0.Tp, rtol, atol) + gam(m0.vm) * box(m0.Tm, rtol, atol)
             v.info.update(S_wallgo=sw, S_matching_tol_rel=(tolS + extra) / scale)
             if abs(sw) * scale > tolS + extra:
-                v.fail("lte-matching", cls,
+                flag = ""
+                if solver == "general" and not bool(getattr(matcher, "success", True)):
+                    # the inner 2x2 solve (scipy hybr) did not converge and findMatching returned the result anyway:
+                    # root cause C02-F1a (listed); does the returned tuple violate the junction conditions?
+                    try:
+                        r1, r2 = R.wall_residuals(eos, *mw)
+                        if max(abs(r1), abs(r2)) > 1e3 * max(rtol, 1e-9):
+                            flag = "/unconverged-flag/nonsolution"
+                    except Exception:  # noqa: BLE001
+                        pass
+                v.fail("lte-matching", cls + flag,
                        f"findMatching({vl:.10g}) gives T+ gamma+ - T- gamma- = {sw:.3e} (relative), allowed "
                        f"{(tolS + extra) / scale:.2e}; the exact matching has {s0:.3e}: "
                        f"returned {mw}, exact {m0.tuple()}", vwLTE=vl, S_wallgo=sw, S_ref=s0)
